@@ -543,8 +543,11 @@ static int attr_get_with_type(struct xcm_socket *s, const char *name,
     int rc = xcm_attr_get(s, name, &actual_type, value, capacity);
 
     if (rc < 0) {
-	if (errno == EOVERFLOW)
-	    errno = ENOENT; /* wrong type */
+	/* a value too large for a fixed-size type is of the wrong
+	   type; for strings and binaries the buffer is too small */
+	if (errno == EOVERFLOW && required_type != xcm_attr_type_str &&
+	    required_type != xcm_attr_type_bin)
+	    errno = ENOENT;
 	return -1;
     }
 
